@@ -37,6 +37,10 @@ type c01Gen struct {
 	// (a concatenation, a read of $0 or of a computed field, a call of f). Such values are stored only in the write-only sink
 	// variables zs0/zs1, so no stored string can be amplified by a loop (g0 = g0 g0 forty times would need a terabyte).
 	long  bool
+	// wide > 0: the program starts with a BEGIN block that fills the constant pools and the global table with `wide` entries, the
+	// input record has 320 fields, and operands are also drawn from constants / globals / fields numbered wide..wide+5 — so the
+	// inline operand words of the code take values all over the opcode number range (see wide.go)
+	wide  int
 	stats map[string]int
 }
 
@@ -48,6 +52,10 @@ func (g *c01Gen) coin(num, den int) bool {
 func same(s string) pr { return pr{s, s} }
 
 func (g *c01Gen) numConst() string {
+	if g.wide > 0 && g.coin(1, 2) {
+		g.hit("wide:num")
+		return fmt.Sprint(41 + g.n(6))
+	}
 	if g.exact || g.coin(3, 4) {
 		return []string{"0", "1", "2", "3", "5", "10", "7", "100"}[g.n(8)]
 	}
@@ -55,6 +63,10 @@ func (g *c01Gen) numConst() string {
 }
 
 func (g *c01Gen) strConst() string {
+	if g.wide > 0 && g.coin(1, 2) {
+		g.hit("wide:str")
+		return fmt.Sprintf(`"ws%d"`, g.n(6))
+	}
 	if g.exact {
 		return []string{`""`, `"a"`, `"abc"`, `"10"`, `"9"`, `"c1"`, `"-3"`, `"b c"`, `"0"`}[g.n(9)]
 	}
@@ -64,6 +76,10 @@ func (g *c01Gen) strConst() string {
 func (g *c01Gen) scalarVar() string {
 	if g.fn && g.coin(1, 2) {
 		return []string{"l0", "l1"}[g.n(2)]
+	}
+	if g.wide > 0 && g.coin(1, 2) {
+		g.hit("wide:global")
+		return fmt.Sprintf("gw%d", g.n(4))
 	}
 	k := g.n(10)
 	switch {
@@ -118,6 +134,10 @@ func (g *c01Gen) fieldIndex(d int, pure bool) pr {
 	switch g.n(6) {
 	case 0, 1, 2:
 		n := []string{"0", "1", "2", "3", "4"}[g.n(5)]
+		if g.wide > 0 && g.coin(1, 2) {
+			g.hit("wide:field")
+			n = fmt.Sprint(g.wide + g.n(6))
+		}
 		if n == "0" {
 			g.long = true
 		}
@@ -687,6 +707,13 @@ func (g *c01Gen) program(d int) pr {
 	add := func(pa, pb string) { a.WriteString(pa); b.WriteString(pb) }
 	withFn := !g.noFn && (!g.exact || g.coin(1, 2))
 	g.haveFn = withFn
+	if g.wide > 0 {
+		fill := "BEGIN {\nzw = " + wideFiller(g.wide, func(i int) string { return fmt.Sprint(5000 + i) }, " + ") + "\n" +
+			"zws = " + wideFiller(g.wide, func(i int) string { return fmt.Sprintf(`"s%d"`, i) }, " ") + "\n" +
+			wideFiller(g.wide, func(i int) string { return fmt.Sprintf("ga%03d = %d", i, i) }, "; ") + "\n" +
+			"gw0 = 7; gw1 = \"w\"; gw3 = 0.5\n}\n"
+		add(fill, fill)
+	}
 	if withFn {
 		g.fn = true
 		body := g.block(d, false)
@@ -739,12 +766,26 @@ func c01RandomPairs(c *vh.Ctx, n int) []c01Pair {
 			d += 2
 		}
 		g.exact = i%3 == 0
+		g.wide = 0
+		if i%6 == 1 {
+			g.wide = 40 + g.n(31)
+			if g.coin(1, 5) {
+				g.wide = 1 + g.n(300)
+			}
+		}
 		p := g.program(d)
 		in := c01Inputs[g.n(len(c01Inputs))]
+		if g.wide > 0 {
+			in = wideRecord() + "3 4\n"
+		}
 		if p.a == p.b {
 			c.Hit("random:no-rewrite-site")
 		}
-		ps = append(ps, c01Pair{Family: "random", Key: fmt.Sprintf("random:depth%d", d), A: p.a, B: p.b, Input: in})
+		key := fmt.Sprintf("random:depth%d", d)
+		if g.wide > 0 {
+			key = "random:wide"
+		}
+		ps = append(ps, c01Pair{Family: "random", Key: key, A: p.a, B: p.b, Input: in})
 	}
 	for k, v := range g.stats {
 		c.HitN("gen:"+k, v)
